@@ -5,11 +5,11 @@ import json, os
 E1T = "explicit-state BFS over mutation histories of the real classes + deviation-bounded hook-fault enumeration"
 E2T = "bounded-exhaustive enumeration of inputs/configurations of the real code against a reference model"
 CHECKS = {
- "C01": ("E1", "Every reachable forest state of 3-4 (5 thorough) labelled nodes of 11 class universes x every structural call x every hook-fault plan (<=2 one-shot faults, persistent vetoes) x both assertion settings is executed on the real code; the two-way link invariant is evaluated on the public views after every execution.",
+ "C01": ("E1", "Every reachable forest state (keyed by links plus a hidden-state fingerprint) of 3-4 (5 thorough) labelled nodes of 12 class universes x every structural call x every hook-fault plan (<=2 (3) one-shot faults of 4-9 exception classes, persistent vetoes) x both assertion settings, plus two-step histories after an aborted call, hooks that read the forest and hooks that detach nodes re-entrantly, executed on the real code; the two-way link invariant (and termination) is evaluated on the public views after every execution.",
          "Bounded: N<=4(5) nodes, <=2(3) hook exceptions per call, hooks only raise. Trusted: the harness's invariant evaluator and CPython.", E1T + "; invariant on every post-state"),
  "C02": ("E1", "Every (reachable forest, call) pair incl. invalid arguments and constructor calls is executed on the real code in lock-step with a declarative reference model; outcome class and the complete parent/children map must agree.",
          "Bounded: N<=4(5). Trusted: the SpecModel (written from the statement).", "explicit-state BFS over mutation histories; lock-step comparison with a reference model on every transition"),
- "C03": ("E1", "Every refusal and every position of a raising pre hook (once, with a second fault, persistently) from every reachable forest; the forest after the call must equal the forest before. Known findings are matched by selector and exact damage.",
+ "C03": ("E1", "Every refusal and every position of a raising pre hook (once, with a second fault, persistently; several exception classes) from every reachable forest, also as second step after an aborted call; the forest after the call must equal the forest before. Known findings are matched by selector and exact damage.",
          "Bounded as C01. Trusted: AsIsModel only for recognising known findings (it never makes a run pass that satisfies no listed selector).", E1T + "; state-equality oracle, exact known-finding matcher"),
  "C04": ("E2+E1", "All ordered trees up to 7(8) nodes: every navigation attribute and util helper of every node/pair/triple against definitions on an index model; plus query-mutate-query-mutate-query histories from every reachable forest on the same live objects.",
          "Bounded sizes and history depth. Trusted: the index model.", E2T + " + explicit-state exploration of query/mutation histories"),
@@ -86,7 +86,7 @@ def main():
              "kind_free_text": "breadth-first explorer over glob call histories (shared pattern cache states)"}],
         "checks": checks,
         "not_applicable": [{"property_id": p, "reason": extra.get("not_applicable", {}).get(p, PENDING_REASON)} for p in props if p not in claimed],
-        "notes": "All checks are bounded exhaustive explorations of the real code (see DESIGN.md). fix: commits in /repo: bf565aa 12814cc f767247 ef920f5 5a914b0 (recorded in known_findings.json).",
+        "notes": "All checks are bounded exhaustive explorations of the real code (see DESIGN.md). fix: commits in /repo: bf565aa 12814cc f767247 ef920f5 5a914b0 190c402 6a388ac f8bc743 (recorded in known_findings.json).",
     }
     with open(os.path.join(here, "MANIFEST.json"), "w") as f:
         json.dump(m, f, indent=1)
